@@ -1186,7 +1186,7 @@ def c12_pairs(seed):
   A = gen.A
   x, y = Var('x'), Var('y')
   layout = ['chain', 'diamond', 'same_private', 'shared_base', 'alias', 'two_roots', 'self_apply',
-            'double_import', 'roots_shadow', 'module_functor'][seed % 10]
+            'double_import', 'roots_shadow', 'module_functor', 'same_private_agg'][seed % 11]
   files = {}
   flat = []
   roots = ('',)
@@ -1226,6 +1226,25 @@ def c12_pairs(seed):
     # main has its own Helper as well
     main_rules = [Rule('Helper', [x], body=A('G', x)),
                   Rule('T', [x], body=Conj([A('P1', x), A('P2', x), A('Helper', x)]))]
+    main_imports = [('m1', 'P1', None), ('m2', 'P2', None)]
+    flat = (flat_module(r1, 'M1x_') + flat_module(r2, 'M2x_') +
+            [rename_rule_preds(r, {'P1': 'M1x_P1', 'P2': 'M2x_P2'}) for r in main_rules])
+  elif layout == 'same_private_agg':
+    # the same private predicate name in two modules (and, sometimes, in main), aggregating over
+    # several rule bodies: the parser's auxiliary predicates must be private to each file too
+    def agg_module(own, srcs, op):
+      rs = [Rule('Tot', [x], [('s', lang.Agg(op, y))], distinct=True, body=b) for b in srcs]
+      rs.append(Rule(own, [x, Var('s')], body=A('Tot', x, s=Var('s'))))
+      return rs
+    op1, op2 = rnd.choice(['Sum', 'Max', 'Min']), rnd.choice(['Sum', 'Count'])
+    r1 = agg_module('P1', [A('E', x, y), A('F', x, y)], op1)
+    r2 = agg_module('P2', [A('F', y, x), Conj([A('E', x, y), A('G', y)])], op2)
+    files['m1.l'] = render_module(r1, [])
+    files['m2.l'] = render_module(r2, [])
+    main_rules = [Rule('T', [x, y], body=Disj([A('P1', x, y), A('P2', x, y)]))]
+    if rnd.random() < 0.5:
+      main_rules = agg_module('P3', [A('E', y, x), A('E', x, y)], 'Sum') + \
+          [Rule('T', [x, y], body=Disj([A('P1', x, y), A('P2', x, y), A('P3', x, y)]))]
     main_imports = [('m1', 'P1', None), ('m2', 'P2', None)]
     flat = (flat_module(r1, 'M1x_') + flat_module(r2, 'M2x_') +
             [rename_rule_preds(r, {'P1': 'M1x_P1', 'P2': 'M2x_P2'}) for r in main_rules])
